@@ -11,7 +11,7 @@ import vtargets
 
 ID = 'C04'
 LEVEL = 'exploration'
-RULE = ('case = (worker class, target behaviour {cooperative loop, swallows every exception, blocked in sleep, interpreter lock held by a C call, SIGSTOPped, result delivered but child process lingering, '
+RULE = ('case = (worker class, target behaviour {cooperative loop, swallows every exception, blocked in sleep, interpreter lock held by a C call, SIGSTOPped, result delivered but child process lingering, whole remote host vanished (control connection reset / closed, data connection silent), '
         'already finished, not run}, history of 1-4 calls from {wait(t), terminate(t, force), is_alive(), close()} with t in {0, 0.2, 1}). Thread kinds get only '
         'the first two behaviours and force=False. Oracle per call: elapsed <= 3*(timeouts passed, remote_timeout included) + 10 s; True => is_alive() False and '
         'the child pid is gone; on a dead / finished / not-run worker every call returns True in < 1 s; for process and remote kinds a returned '
@@ -21,7 +21,7 @@ ASSUMPTIONS = ['the bound 3*timeouts + 10 s separates bounded from blocked under
                'the harness installs a SIGTERM handler in the shard so that a self-directed SIGTERM becomes an observation instead of killing the check']
 SHRINK = 'none'
 TIME_BUDGET = {'quick': 170, 'thorough': 1700}
-REQUIRED = {'quick': {'beh:swallow': 20, 'beh:sleep': 15, 'beh:gil': 15, 'beh:stop': 15, 'beh:coop': 20, 'beh:finished': 15, 'beh:norun': 10, 'beh:linger': 15, 'force_true_on_uncooperative': 30,
+REQUIRED = {'quick': {'beh:swallow': 20, 'beh:sleep': 15, 'beh:gil': 15, 'beh:stop': 15, 'beh:coop': 20, 'beh:finished': 15, 'beh:norun': 10, 'beh:linger': 15, 'beh:host_vanished': 15, 'force_true_on_uncooperative': 30,
                       'calls_after_death>=2': 40},
             'thorough': {'beh:swallow': 200, 'beh:sleep': 150, 'beh:gil': 150, 'beh:stop': 150, 'force_true_on_uncooperative': 300}}
 _T = [0, 0.2, 1]
@@ -47,7 +47,9 @@ def strategy(tier):
     th = st.fixed_dictionaries({'kind': st.sampled_from(['thread', 'p_thread']), 'beh': st.sampled_from(['coop', 'swallow', 'finished', 'norun']), 'ops': _ops(True)})
     pr = st.fixed_dictionaries({'kind': st.sampled_from(['process', 'remote', 'p_process', 'p_remote']),
                                 'beh': st.sampled_from(['coop', 'swallow', 'sleep', 'gil', 'stop', 'finished', 'norun', 'linger']), 'ops': _ops(False)})
-    return st.one_of(th, pr, pr, pr)
+    # the most unresponsive child of all: its whole host vanishes (control connection reset / closed, data connection silent; engine FAKEHOST)
+    hv = st.fixed_dictionaries({'kind': st.sampled_from(['remote', 'p_remote']), 'beh': st.just('host_vanished'), 'ctrl': st.sampled_from(['rst', 'fin']), 'ops': _ops(False)})
+    return st.one_of(th, pr, pr, pr, pr, pr, pr, hv)
 
 
 def setup_shard(ctx):
@@ -70,17 +72,26 @@ def run_case(case, ctx):
     name = IC.fresh_name(ctx, 'c04')
     started = os.path.join(ctx.scratch, name + '.started')
     escape = os.path.join(ctx.scratch, name + '.escape')
-    target, args = {
+    target, args = (None, None) if beh == 'host_vanished' else {
         'coop': (vtargets.coop_loop, [100000, started]), 'swallow': (vtargets.swallow_everything, [escape, started]),
         'sleep': (vtargets.sleep_forever, [started]), 'gil': (vtargets.hold_gil, [started]), 'stop': (vtargets.stop_self, [started]),
         'finished': (vtargets.quick_return, [7]), 'norun': (vtargets.quick_return, [7]), 'linger': (vtargets.linger, [started, 40]),
     }[beh]
     kw = {'name': name}
-    if kind.endswith('remote'):
+    host = None
+    if beh == 'host_vanished':
+        import fakehost
+        if pid_alive(fakehost.FAKE_PID):
+            out.excluded = 'the pid reserved for the fake host exists'
+            return out
+        host = fakehost.FakeHost(answers=0, ctrl=case.get('ctrl', 'rst'), persistent=persistent)
+        kw['host'] = host.addr
+        target, args = vtargets.quick_return, [7]
+    elif kind.endswith('remote'):
         kw['host'] = IC.server(ctx).addr
     if beh == 'norun':
         kw['run'] = False
-    live_uncoop = beh in ('swallow', 'sleep', 'gil', 'stop', 'linger')
+    live_uncoop = beh in ('swallow', 'sleep', 'gil', 'stop', 'linger', 'host_vanished')
     w = None
     records = []
     site0 = f'{kind}:{beh}'
@@ -96,8 +107,13 @@ def run_case(case, ctx):
         except BaseException as e:
             out.excluded = 'constructor failed: ' + type(e).__name__
             return out
-        pid = w.pid if not thread and beh != 'norun' else None
-        if beh in ('coop', 'swallow', 'sleep', 'gil', 'stop', 'linger'):
+        pid = w.pid if not thread and beh not in ('norun', 'host_vanished') else None
+        if beh == 'host_vanished':
+            if not host.vanished.wait(15):
+                out.excluded = 'fake host did not reach its vanishing point'
+                return out
+            time.sleep(0.15)
+        elif beh in ('coop', 'swallow', 'sleep', 'gil', 'stop', 'linger'):
             t_end = time.monotonic() + 8
             while not os.path.exists(started) and time.monotonic() < t_end:
                 time.sleep(0.005)
@@ -197,7 +213,14 @@ def run_case(case, ctx):
             open(escape, 'w').close()
         except OSError:
             pass
-        if w is not None:
+        if host is not None:
+            host.close()
+        if w is not None and host is not None:
+            try:
+                bounded(w.terminate, 10, 0, True)
+            except BaseException:
+                pass
+        elif w is not None:
             try:
                 pid = w.pid
                 if not thread and pid and pid != os.getpid() and pid_alive(pid):
